@@ -168,6 +168,9 @@ def _day():
 
 
 HISTORIES = [
+    # the first query after an override is made with the very Cell object that was handed to set_cells
+    ('query-with-the-override-object', [('set', [(0, 0, 0, 5), (0, 1, 0, 20)]), ('same', 0), ('cell', (0, 1, 0)), ('same', 1), ('cell', (0, 0, 0))]),
+    ('query-with-the-override-object-after-another', [('set', [(0, 0, 0, 5)]), ('cell', (0, 1, 1)), ('same', 0), ('sheet', 0)]),
     ('equal-under-==-is-still-a-write', [('set', [(0, 0, 0, 1), (0, 1, 0, 0)]), ('cell', (0, 0, 0)), ('set', [(0, 0, 0, True), (0, 1, 0, False)]),
                                          ('cells', [(0, 0, 0), (0, 1, 0)]), ('set', [(0, 0, 0, 1.0)]), ('cell', (0, 0, 0))]),
     ('same-batch-twice', [('set', [(0, 0, 0, 4)]), ('cell', (0, 0, 0)), ('set', [(0, 0, 0, 4)]), ('cell', (0, 0, 0)), ('sheet', 0)]),
@@ -218,11 +221,12 @@ def evaluate_histories(run: Run, rule: str, src, label='Executor'):
             return 'wb:' + m.uid_of(t, c, r)
         for k, op in enumerate(ops):
             construct = f'{label}/{hname}/{k}:{op[0]}'
-            meth = {'set': 'set_cells', 'cell': 'get_cell', 'cells': 'get_cells', 'sheet': 'get_sheet'}[op[0]]
+            meth = {'set': 'set_cells', 'cell': 'get_cell', 'cells': 'get_cells', 'sheet': 'get_sheet', 'same': 'get_cell'}[op[0]]
             loc = loc_of(ex.module.path, ex.methods[meth].node)
             try:
                 if op[0] == 'set':
                     cells = [m.cell(t, c, r, v, True) for t, c, r, v in op[1]]
+                    last_set = (cells, op[1])
                     m.ev.call_method('set_cells', [m.AV('list', items=tuple(cells))], m.me)
                     for t, c, r, v in op[1]:
                         tt, cc, rr = _norm((t, c, r))
@@ -230,7 +234,12 @@ def evaluate_histories(run: Run, rule: str, src, label='Executor'):
                         sizes[tt][0] = max(sizes[tt][0], rr + 1)
                         sizes[tt][1] = max(sizes[tt][1], cc + 1)
                     continue
-                if op[0] == 'cell':
+                if op[0] == 'same':
+                    res = m.ev.call_method('get_cell', [last_set[0][op[1]]], m.me)
+                    got = m.plain(res)
+                    t, c, r = _norm(last_set[1][op[1]][:3])
+                    want = (t, c, r, want_value(t, c, r))
+                elif op[0] == 'cell':
                     res = m.ev.call_method('get_cell', [m.cell(*op[1])], m.me)
                     got = m.plain(res)
                     t, c, r = _norm(op[1])
@@ -284,6 +293,8 @@ def _show(ops):
     for op in ops:
         if op[0] == 'set':
             out.append('set_cells(' + ', '.join(f'{t!r},{c!r},{r!r}<-{v!r}' for t, c, r, v in op[1]) + ')')
+        elif op[0] == 'same':
+            out.append(f'get_cell(<the Cell object #{op[1]} of the last set_cells>)')
         elif op[0] == 'cell':
             out.append(f'get_cell{op[1]}')
         elif op[0] == 'cells':
